@@ -1,5 +1,6 @@
 import QuantemModel.Model.SaveFs
 import QuantemModel.Model.SaveFront
+import QuantemModel.Model.SaveInstall
 /-!
 C08 — failed saves leave no loadable partial object; write-once never overwrites; no other
 path is altered.  Theorems about Model/SaveFs.lean, for every fault position, step count,
@@ -707,6 +708,52 @@ theorem saveFull_no_partial (name : P → String) (k : FullCall) (fs : Fs) (hu :
     refine ⟨?_, fun _ => ?_⟩
     · exact (no_partial { target := T, staged := k.staged, id := k.id } hne fs hu _ k.nTmp k.nWrites k.fault).1
     · exact staged_gone { target := T, staged := k.staged, id := k.id } fs hu _ _ _ _ _
+
+/-! ### `_install()` / `_discard()` against every KIND of directory entry -/
+section kinds
+open QuantemModel.SaveInstall
+
+/-- **`_install()` never fails on what it finds at the target and never follows a link**: whatever
+is at the target — nothing, a file, an empty or non-empty directory, a symbolic link to a
+directory / to a file / to nothing — and whether the staged object is a file (zip) or a
+directory, afterwards the target IS the staged object and the staging path is gone -/
+theorem install_total (s : Kind) (path : Ent) (hs : islink (some s) = false) :
+    install (some s) path = .ok (.none, some s) := by
+  cases s with
+  | file => rcases path with _ | (_ | e | ⟨d, g⟩) <;> first | rfl | (cases e <;> rfl) | (cases d <;> cases g <;> rfl)
+  | dir e0 => rcases path with _ | (_ | e | ⟨d, g⟩) <;> first | rfl | (cases e <;> rfl) | (cases d <;> cases g <;> rfl)
+  | link d g => simp [islink] at hs
+
+/-- **`_discard()` removes whatever staging left**: nothing, a file (zip store), a directory
+(empty or not) — afterwards the staging path is absent and no exception escapes -/
+theorem discard_total (staged : Ent) (hs : islink staged = false) : SaveInstall.discard staged = .ok .none := by
+  rcases staged with _ | (_ | e | ⟨d, g⟩)
+  · rfl
+  · rfl
+  · cases e <;> rfl
+  · simp [islink] at hs
+
+/-- **the write-once guard refuses every kind of existing entry** (also a dangling link) -/
+theorem guard_refuses_every_kind (k : Kind) : guardRefuses (some k) false = true := by
+  cases k <;> rfl
+
+/-- what the guard was before repo 1abdf99 (`os.path.exists`): a dangling link slipped through -/
+theorem guard_exists_dangling_counterexample (d : Bool) :
+    (pexists (some (.link d true)) && !false) = false := by
+  cases d <;> rfl
+
+/-- a clean-up that is only `shutil.rmtree(staged, ignore_errors=True)` leaves a staged FILE
+(the zip store's staging archive) where it is -/
+theorem discard_rmtree_only_counterexample : discardRmtreeOnly (some .file) = some .file := rfl
+
+/-- an `_install()` without the `not islink` test fails on a link to a directory -/
+theorem install_no_link_test_counterexample :
+    installNoLinkTest (some .file) (some (.link true false)) = .error "OSError" := rfl
+
+example : install (some (.dir false)) (some (.link true false)) = .ok (.none, some (.dir false)) := rfl
+example : install (some .file) (some (.dir false)) = .ok (.none, some .file) := rfl
+example : SaveInstall.discard (some (.dir true)) = .ok .none := rfl
+end kinds
 
 /-! ### non-vacuity -/
 private def c0 : Cfg := { target := "out.zip", staged := "out.zip.tmp-1", id := 7 }
